@@ -104,6 +104,8 @@ def build(R):
     install(R)
     install_response(R)
     install_generators(R)
+    install_listeners(R)
+    install_add_listener(R)
     cache_model.install_generators(R)
     # contracts proved elsewhere are used by contract here (not re-verified under C06)
 
@@ -366,3 +368,101 @@ def install_generators(R):
     R.generators[(K, 'RecordManager.async_updates')] = _gen_updates
     R.generators[(K, 'RecordManager.async_updates_complete')] = _gen_complete
     R.generators[(K, 'RecordManager.async_updates_from_response')] = _gen_response
+    R.generators[(K, 'RecordManager._async_update_matching_records')] = _gen_matching
+    R.generators[(K, 'RecordManager.async_remove_listener')] = _gen_remove_listener
+    R.generators[(K, 'RecordManager.async_add_listener')] = _gen_add_listener
+
+
+def install_listeners(R):
+    """async_add_listener / _async_update_matching_records / async_remove_listener"""
+    K = 'zeroconf._handlers.record_manager'
+    R.shape('DNSQuestion', {})
+    L0 = 'old(len(LOG.events))'
+    ans = ('(q.class_ == r.class_ and (q.type == r.type or q.type == 255) and q.name == r.name)')
+    R.spec('answers_q', [('q', 'DNSQuestion'), ('r', 'DNSRecord')], 'bool', ans)
+    R.contract(K, 'RecordManager._async_update_matching_records', PROP,
+               params={'listener': 'RecordUpdateListener', 'questions': 'list[DNSQuestion]'},
+               requires=['wf_cache(self.cache)', 'self.cache is not None',
+                         'forall("j:int", lambda j: implies(0 <= j and j < len(questions), questions[j] is not None))'],
+               modifies=['LOG.events', 'RecordManager.listeners[*]', 'RecordUpdate.new[*]', 'RecordUpdate.old[*]'],
+               ghost_out={'records': 'list[RecordUpdate]', 'now': 'real'},
+               ensures=[
+                   # the replay list: one (record, None) pair per (question, unexpired cached record answering it)
+                   'forall("p:int", lambda p: implies(0 <= p and p < len(records), records[p].old is None '
+                   '   and in_cache(self.cache, ident(records[p].new)) and records[p].new is cached(self.cache, ident(records[p].new)) '
+                   '   and not expired(records[p].new, now) '
+                   '   and exists("j:int", lambda j: 0 <= j and j < len(questions) and answers_q(questions[j], records[p].new))))',
+                   'forall("j:int, i:ident", lambda j, i: implies(0 <= j and j < len(questions) and in_cache(self.cache, i) '
+                   '   and not expired(cached(self.cache, i), now) and answers_q(questions[j], cached(self.cache, i)), '
+                   '   exists("p:int", lambda p: 0 <= p and p < len(records) and records[p].new is cached(self.cache, i))))',
+                   # nothing to report: no call at all
+                   'implies(len(records) == 0, len(LOG.events) == %s)' % L0,
+                   # otherwise exactly: async_update_records(listener, pairs) then async_update_records_complete(listener)
+                   'implies(len(records) > 0, len(LOG.events) == %s + 2 and LOG.events[%s][0] == 1 and LOG.events[%s][1] is listener '
+                   '   and LOG.events[%s][2] == uf("lid", records) and LOG.events[%s + 1][0] == 2 and LOG.events[%s + 1][1] is listener)'
+                   % (L0, L0, L0, L0, L0, L0),
+                   'forall("p:int", lambda p: implies(0 <= p and p < %s, LOG.events[p] == old(LOG.events[p])))' % L0])
+    R.contract(K, 'RecordManager.async_remove_listener', PROP, params={'listener': 'RecordUpdateListener'},
+               modifies=['self.listeners'],
+               raises={'KeyError': 'not self.listeners.has(listener)'}, raises_exact=['KeyError'],
+               ensures=['forall("l:RecordUpdateListener", lambda l: self.listeners.has(l) == (old(self.listeners).has(l) and l is not listener))'],
+               note='set.remove raises KeyError for an unregistered listener; the except clause names ValueError, so the '
+                    'KeyError escapes (stated here as the function\'s actual behaviour; callers are checked against it)')
+
+
+def _gen_matching(g):
+    rm, log, captured = _mk_manager(g, 0)
+    from zeroconf._updates import RecordUpdateListener
+
+    class L(RecordUpdateListener):
+        def async_update_records(self, zc, now, records):
+            captured['records'] = records
+            log.events.append((1, self, id(records)))
+
+        def async_update_records_complete(self):
+            log.events.append((2, self, 0))
+    lst = L()
+    from zeroconf._dns import DNSQuestion
+    cached = [r for st in rm.cache.cache.values() for r in st]
+    qs = []
+    for _ in range(g.rng.randint(0, 3)):
+        if cached and g.rng.random() < 0.8:
+            r = g.rng.choice(cached)
+            qs.append(DNSQuestion(g.rng.choice([r.name, r.name.upper()]), g.rng.choice([r.type, 255, 12]), g.rng.choice([r.class_, 1])))
+        else:
+            qs.append(g.question())
+    times = [r.created + 1000 * r.ttl + d for r in cached for d in (-1, 0, 1)] or [2000.0]
+    clock = max(1.0, g.rng.choice(times))
+    return {'self': rm, 'listener': lst, 'questions': qs, '__env__': {'LOG': log}, '__clock__': clock,
+            '__ghost_funcs__': {'lid': lambda l: id(l)},
+            '__ghost_out__': lambda kw, res: {'records': captured.get('records', [])}}
+
+
+def _gen_remove_listener(g):
+    rm, log, captured = _mk_manager(g, g.rng.randint(0, 2))
+    from zeroconf._updates import RecordUpdateListener
+    l = g.rng.choice(list(rm.listeners)) if rm.listeners and g.rng.random() < 0.6 else RecordUpdateListener()
+    return {'self': rm, 'listener': l}
+
+
+def install_add_listener(R):
+    K = 'zeroconf._handlers.record_manager'
+    L0 = 'old(len(LOG.events))'
+    R.contract(K, 'RecordManager.async_add_listener', PROP,
+               params={'listener': 'RecordUpdateListener', 'question': 'list[DNSQuestion]'},
+               requires=['wf_cache(self.cache)', 'self.cache is not None', 'listener is not None',
+                         'forall("j:int", lambda j: implies(0 <= j and j < len(question), question[j] is not None))'],
+               modifies=['self.listeners', 'LOG.events', 'RecordManager.listeners[*]', 'RecordUpdate.new[*]', 'RecordUpdate.old[*]'],
+               ensures=['len(LOG.events) == %s or (len(LOG.events) == %s + 2 and LOG.events[%s][0] == 1 and LOG.events[%s][1] is listener '
+                        '   and LOG.events[%s + 1][0] == 2 and LOG.events[%s + 1][1] is listener)' % (L0, L0, L0, L0, L0, L0),
+                        'forall("p:int", lambda p: implies(0 <= p and p < %s, LOG.events[p] == old(LOG.events[p])))' % L0],
+               at_calls={'_async_update_matching_records': ['self.listeners.has(listener)']},
+               note='verified for the list-of-questions form used by the browser and by ServiceInfo; the single-question '
+                    'and None forms differ only in the wrapper lines')
+
+
+def _gen_add_listener(g):
+    d = _gen_matching(g)
+    d['question'] = d.pop('questions')
+    d.pop('__ghost_out__', None)
+    return d
